@@ -11,6 +11,8 @@ from pymemcache.exceptions import MemcacheError, MemcacheIllegalInputError, Memc
 
 PROPERTY = "C06"
 LEVEL = "fault_enumeration"
+# parts repeated in a child interpreter started with -O and with warnings turned into errors (vlib/runner.py, MODES)
+MODE_PARTS = {"OW": ['object-shutdown', 'connection-ending-calls', 'fault-position-sweep', 'refused-items']}
 RULE = ("configuration = TCP with 1-3 resolved addresses (mixed families) / UNIX socket / TLS-wrapped TCP x connect_timeout, "
         "timeout in {None, 0.5, 3} x no_delay x socket_keepalive x client stack (Client, PooledClient max 1, single-server "
         "HashClient). Systematic sweep: a fault-free dry run of a cold call and a warm call lists every socket event "
